@@ -136,6 +136,7 @@ class Doc:
                 self.trip(name, 'text-float-frac', lambda: cls(v + 0.5, **kwargs))
             if isinstance(v, str) and J['st'][st]['prim'] == 'string' and not J['st'][st]['hasEnum'] and not J['st'][st]['pats']:
                 self.trip(name, 'text-exterior-blanks', lambda: cls('  a  b ', **kwargs))
+                self.trip(name, 'text-inner-whitespace', lambda: cls('a\n b  c\td', **kwargs))
                 self.trip(name, 'text-markup', lambda: cls('<&>"\' é\U0001d11e', **kwargs))
 
     # ---- C09 --------------------------------------------------------------------------
@@ -174,6 +175,10 @@ class Doc:
                 d = B.build(name)
                 d.text = '\n   ' + (d.text or '') + '  '
                 docs.append(('text-exterior-blanks' + ('-collapsing' if collapsing else '-significant'), d))
+            if free:
+                d = B.build(name)
+                d.text = 'a\n b  c\td'
+                docs.append(('text-inner-whitespace', d))
         for k, (desc, d) in enumerate(docs):
             root = B.wrap(name, d) if wrap else d
             self.parse_event(name, 'valid', desc, root)
